@@ -92,23 +92,23 @@ type worldEntry struct {
 }
 
 type out struct {
-	Seed      int64               `json:"seed"`
-	Scenarios []scenario          `json:"scenarios"`
-	Table     map[string][]string `json:"table"` // "<op>|<wrap>|<resolved>" -> probes satisfying it (go/types on the target universe)
-	World     []worldEntry        `json:"world"`
-	Std       map[string]string   `json:"std"`
-	Probes    []string            `json:"probes"`
-	RunPanic  string              `json:"run_panic"`
-	StdSweep  *stdOut             `json:"std_sweep,omitempty"`
-	StdTable  map[string]string   `json:"std_table"` // the whole documented table (stdinfo.PathByName, private copy)
-	Scripts   []itabScript        `json:"scripts"`   // scripted histories of the import table itself
-	ItabNames []string            `json:"itab_names"`
-	ItabPaths []string            `json:"itab_paths"`
-	QProbes   []string            `json:"qprobes"`   // the typed probes of the position shapes
-	PosParse  *posParse           `json:"pos_parse"` // typematch.Parse alone on every composition of wrappers
-	FQNSweep  *fqnOut             `json:"fqn_sweep"` // FindType alone on fully-qualified names with dots everywhere
+	Seed      int64                  `json:"seed"`
+	Scenarios []scenario             `json:"scenarios"`
+	Table     map[string][]string    `json:"table"` // "<op>|<wrap>|<resolved>" -> probes satisfying it (go/types on the target universe)
+	World     []worldEntry           `json:"world"`
+	Std       map[string]string      `json:"std"`
+	Probes    []string               `json:"probes"`
+	RunPanic  string                 `json:"run_panic"`
+	StdSweep  *stdOut                `json:"std_sweep,omitempty"`
+	StdTable  map[string]string      `json:"std_table"` // the whole documented table (stdinfo.PathByName, private copy)
+	Scripts   []itabScript           `json:"scripts"`   // scripted histories of the import table itself
+	ItabNames []string               `json:"itab_names"`
+	ItabPaths []string               `json:"itab_paths"`
+	QProbes   []string               `json:"qprobes"`    // the typed probes of the position shapes
+	PosParse  *posParse              `json:"pos_parse"`  // typematch.Parse alone on every composition of wrappers
+	FQNSweep  *fqnOut                `json:"fqn_sweep"`  // FindType alone on fully-qualified names with dots everywhere
 	ASTFields map[string][][2]string `json:"ast_fields"` // go/ast by reflection: the type-valued fields of the nodes parseExpr handles
-	Error     string              `json:"error,omitempty"`
+	Error     string                 `json:"error,omitempty"`
 }
 
 // ---- the universe of packages
@@ -130,6 +130,9 @@ var fakeDirs = map[string]string{
 	"example.com/c20/lib/api":          "fake/c20lib/api/api.go",
 	"example.com/c20/lib/v1.2/plain":   "fake/c20lib/v1.2/plain/plain.go",
 	"example.com/c20/lib/multi.dot.v2": "fake/c20lib/multi.dot.v2/multi.go",
+	// packages named like the first label of a host name: `example.com/io.Reader`, `gopkg.in/yaml.v3.Marshaler` up to their FIRST dot
+	"example.com/c20/lib/example": "fake/c20lib/example/example.go",
+	"example.com/c20/lib/gopkg":   "fake/c20lib/gopkg/gopkg.go",
 }
 
 const vendoredLib = "example.com/c20app/vendor/example.com/c20/lib"
@@ -178,6 +181,8 @@ import (
 	apid "example.com/c20/lib/api"
 	plain12 "example.com/c20/lib/v1.2/plain"
 	multi2 "example.com/c20/lib/multi.dot.v2"
+	lexample "example.com/c20/lib/example"
+	lgopkg "example.com/c20/lib/gopkg"
 
 	gscanner "go/scanner"
 	mrand "math/rand"
@@ -202,6 +207,7 @@ var probeTypes = []string{
 	// packages whose import paths have dots beyond the host name
 	"yaml3.Node", "*yaml3.Node", "yaml3.Impl", "chk1.C", "chk1.Impl", "api2.T", "api2.Impl", "apid.T", "apid.Impl", "plain12.T", "plain12.Impl",
 	"multi2.T", "multi2.Impl",
+	"lexample.Impl", "lgopkg.Impl",
 }
 
 var nProbes = len(probeTypes)
@@ -225,7 +231,9 @@ var targetSrc = func() string {
 var importMenu = []string{"example.com/io", "example.com/a/foo", "example.com/b/foo", "html/template", "example.com/c20/lib", "text/template", "math/rand", "text/scanner",
 	"example.com/c20/lib/io", "example.com/c20/lib/foo", "example.com/c20/lib/template", "go/scanner", "io",
 	// Import() binds the LAST PATH ELEMENT (irconv: path.Base): `plain`, `api` -- and `api.v2`, `yaml.v3`, which no `pkg.T` can spell
-	"example.com/c20/lib/v1.2/plain", "example.com/c20/lib/api", "example.com/c20/lib/api.v2", "gopkg.in/yaml.v3"}
+	"example.com/c20/lib/v1.2/plain", "example.com/c20/lib/api", "example.com/c20/lib/api.v2", "gopkg.in/yaml.v3",
+	// `example` / `gopkg`: what a fully-qualified `example.com/...` / `gopkg.in/...` name reads up to its first dot
+	"example.com/c20/lib/example", "example.com/c20/lib/gopkg"}
 
 // families of importable packages with one base name: a group may bind the name several times (the last Import() wins inside
 // the group, and all of its bindings end with the group)
@@ -337,12 +345,12 @@ var typepatMenu = [][2]string{
 	{"io", "Reader"}, {"io", "Writer"}, {"io", "OnlyFake"}, {"foo", "T"}, {"foo", "OnlyA"}, {"foo", "Impl"}, {"template", "Template"},
 	{"lib", "T"}, {"lib", "Impl"}, {"nosuchpkg", "T"}, {"bytes", "Buffer"}, {"io", "Impl"}, {"io", "Reader"}, {"foo", "T"}, {"template", "Template"},
 	{"rand", "Rand"}, {"pprof", "Profile"}, {"scanner", "Scanner"},
-	{"plain", "T"}, {"api", "T"}, {"yaml", "Node"},
+	{"plain", "T"}, {"api", "T"}, {"yaml", "Node"}, {"example", "T"},
 }
 var ifaceQualMenu = [][2]string{
 	{"io", "Reader"}, {"io", "Writer"}, {"io", "StringWriter"}, {"foo", "Iface"}, {"lib", "Doer"}, {"nosuchpkg", "Iface"}, {"io", "NoSuchName"},
 	{"foo", "T"}, {"io", "Reader"}, {"foo", "Iface"}, {"io", "Writer"}, {"lib", "Doer"}, {"rand", "Source"},
-	{"plain", "Iface"}, {"api", "Handler"}, {"yaml", "Marshaler"},
+	{"plain", "Iface"}, {"api", "Handler"}, {"yaml", "Marshaler"}, {"example", "Reader"}, {"gopkg", "Marshaler"},
 }
 var ifaceFqnMenu = [][2]string{
 	{"example.com/a/foo", "Iface"}, {"example.com/b/foo", "Iface"}, {"example.com/io", "Reader"}, {"example.com/c20/lib", "Doer"},
@@ -870,6 +878,10 @@ func main() {
 		mk(g(false, []string{yv3}, ifq("yaml.v3", "Marshaler"))), // not `pkg.T` (two identifiers), and no package has the path yaml.v3
 		mk(g(false, []string{api2}, ifq(api2, "Handler")), g(false, []string{api2}, tp("", "api", "T"))),
 		mk(g(false, []string{api2}, fr("api", "Handler", "HandleV2"))),
+		// the group binds the identifier a fully-qualified name starts with (`example`, `gopkg`): the name still means the package as written
+		mk(g(false, []string{"example.com/c20/lib/example", "example.com/c20/lib/gopkg"}, ifq(fio, "Reader"), ifq(yv3, "Marshaler"), ifq(afoo, "Iface"),
+			iq("example", "Reader"), iq("gopkg", "Marshaler"), tp("", "example", "T"), fr("gopkg", "Marshaler", "MarshalGopkg")),
+			g(false, nil, ifq(fio, "Reader"), ifq(yv3, "Marshaler"))),
 		mk(g(false, nil, ifq("gopkg.in/yaml", "v3"))),
 		mk(g(false, nil, ifq(yv3, "Node"))),
 	)
@@ -924,14 +936,15 @@ func main() {
 				q := genReq(r)
 				gr.Reqs = append(gr.Reqs, q)
 				// mostly give the group an Import() that binds the name (so that most files load)
-				if (q.Pkg == "foo" || q.Pkg == "lib" || q.Pkg == "plain" || q.Pkg == "api") && r.Intn(6) != 0 {
+				if (q.Pkg == "foo" || q.Pkg == "lib" || q.Pkg == "plain" || q.Pkg == "api" || q.Pkg == "example" || q.Pkg == "gopkg") && r.Intn(6) != 0 {
 					bound := false
 					for _, imp := range gr.Imports {
 						bound = bound || path.Base(imp) == q.Pkg
 					}
 					if !bound {
 						cands := map[string][]string{"foo": {"example.com/a/foo", "example.com/b/foo", "example.com/c20/lib/foo"}, "lib": {"example.com/c20/lib"},
-							"plain": {"example.com/c20/lib/v1.2/plain"}, "api": {"example.com/c20/lib/api"}}[q.Pkg]
+							"plain": {"example.com/c20/lib/v1.2/plain"}, "api": {"example.com/c20/lib/api"},
+							"example": {"example.com/c20/lib/example"}, "gopkg": {"example.com/c20/lib/gopkg"}}[q.Pkg]
 						gr.Imports = append(gr.Imports, cands[r.Intn(len(cands))])
 					}
 				}
